@@ -14,6 +14,8 @@ import (
 	"time"
 )
 
+var profQueries = os.Getenv("GOSMT_PROF") != ""
+
 type SatResult int
 
 const (
@@ -219,7 +221,19 @@ func children(t *Term) []*Term {
 // is sat, the values of vars (and of the UF applications in ufApps) are returned.
 func (s *Solver) Check(conds []*Term, wantModel bool, vars []*Term, ufApps []*Term) (res SatResult, model *Model) {
 	start := time.Now()
-	defer func() { s.Time += time.Since(start); s.Queries++ }()
+	defer func() {
+		d := time.Since(start)
+		s.Time += d
+		s.Queries++
+		if profQueries && d > 200*time.Millisecond {
+			fmt.Fprintf(os.Stderr, "slow query %.0fms conds=%d model=%v defs=%d res=%v\n", d.Seconds()*1000, len(conds), wantModel, s.nDefs, res)
+			if d > 3*time.Second {
+				for _, c := range conds {
+					fmt.Fprintf(os.Stderr, "    %s\n", c.String())
+				}
+			}
+		}
+	}()
 	if s.nDefs > 400000 {
 		s.Restart()
 	}
